@@ -30,11 +30,11 @@ ASSUMPTIONS = ['the segments\' own point() is the reference (C03/C04)',
 TIERS = {
     'quick': {'shards': 14, 'random': 5000, 'timeout': 900, 'min_cases': 3000, 'max_timeouts': 10,
               'require_branches': ['cfg:crossing', 'cfg:tangent', 'cfg:endpoint', 'cfg:near-miss', 'cfg:axis-aligned',
-                                   'cfg:paths', 'cfg:ellipse-axis-line', 'cfg:far-arc-line', 'far-from-origin', 'paths:requery-after-edit', 'pair:Arc-Arc', 'pair:CubicBezier-CubicBezier', 'pair:Line-Arc',
+                                   'cfg:paths', 'cfg:ellipse-axis-line', 'cfg:far-arc-line', 'cfg:hairpin', 'far-from-origin', 'paths:requery-after-edit', 'pair:Arc-Arc', 'pair:CubicBezier-CubicBezier', 'pair:Line-Arc',
                                    'reported>=1']},
     'thorough': {'shards': 14, 'random': 200000, 'timeout': 3400, 'min_cases': 100000, 'max_timeouts': 200,
                  'require_branches': ['cfg:crossing', 'cfg:tangent', 'cfg:endpoint', 'cfg:near-miss', 'cfg:axis-aligned',
-                                      'cfg:paths', 'cfg:ellipse-axis-line', 'cfg:far-arc-line', 'far-from-origin', 'paths:requery-after-edit', 'pair:Arc-Arc', 'pair:CubicBezier-CubicBezier', 'pair:Line-Arc',
+                                      'cfg:paths', 'cfg:ellipse-axis-line', 'cfg:far-arc-line', 'cfg:hairpin', 'far-from-origin', 'paths:requery-after-edit', 'pair:Arc-Arc', 'pair:CubicBezier-CubicBezier', 'pair:Line-Arc',
                                       'reported>=1']},
 }
 CASE_TIMEOUT = 20
@@ -290,6 +290,28 @@ def cases(ctx):
             cfg = 'ellipse-axis-line'
         elif rng.random() < 0.05:
             cfg = 'far-arc-line'
+        if cfg not in ('ellipse-axis-line', 'far-arc-line') and rng.random() < 0.06:
+            # a curve that runs back over (nearly) itself - a hairpin quadratic, a cubic whose second half retraces its
+            # first - crossed by another curve: it meets the other curve twice at (nearly) the same point, at quite
+            # different parameters
+            p0 = gen.scaled_point(rng, scale)
+            tip = p0 + scale * rng.uniform(0.5, 2) * cmath.exp(1j * rng.uniform(0, 2 * math.pi))
+            w = 10.0 ** rng.uniform(-6, -2) * abs(tip - p0) * 1j * (tip - p0) / abs(tip - p0)
+            if rng.random() < 0.5:
+                sa = ['Q'] + [[z.real, z.imag] for z in (p0, p0 + 2 * (tip - p0), p0 + w)]
+            else:
+                sa = ['C'] + [[z.real, z.imag] for z in (p0, tip + (tip - p0) / 3, tip + (tip - p0) / 3 + w, p0 + w)]
+            x = p0 + (tip - p0) * rng.uniform(0.2, 0.8)
+            d = (tip - p0) * cmath.exp(1j * rng.choice([-1, 1]) * rng.uniform(0.4, 1.5))
+            kb2 = rng.choice('LQC')
+            q0, q1 = x - d * rng.uniform(0.3, 0.7), x + d * rng.uniform(0.3, 0.7)
+            bend = 1j * d * rng.uniform(-0.2, 0.2)
+            ctrl = {'L': [], 'Q': [(q0 + q1) / 2 + bend], 'C': [q0 + (q1 - q0) / 3 + bend, q0 + 2 * (q1 - q0) / 3 + bend]}[kb2]
+            sb = [kb2] + [[z.real, z.imag] for z in [q0] + ctrl + [q1]]
+            if rng.random() < 0.5:
+                sa, sb = sb, sa
+            yield {'kind': 'pair', 'a': sa, 'b': sb, 'cls': ['cfg:hairpin']}
+            continue
         if cfg == 'far-arc-line':
             # a small unrotated arc 1e5 .. 1e6 radii away from the origin, crossed by a line close to one of the
             # arc's (or the line's) end points
